@@ -73,6 +73,45 @@ c07_ctx1!(c07_q_set1_ctx0, 0);
 c07_ctx1!(c07_q_set1_ctx1, 1);
 c07_ctx1!(c07_q_set1_ctx2, 2);
 
+/// The same resynchronisation seen through Keyboard::add_byte (symbolic prefix context): the
+/// combined object must not keep a prefix pending across an event or error either, and must not
+/// swallow bytes the decoder would have answered.
+#[kani::proof]
+pub fn c07_q_keyboard_set2() {
+    let i: u8 = kani::any();
+    kani::assume(i < SET2_CONTEXTS);
+    let b: u8 = kani::any();
+    let calls = core::cell::Cell::new(0);
+    let mut kb = Keyboard::new(ctx2(i), crate::spy::Spy { tag: false, calls: &calls }, HandleControl::Ignore);
+    let r = kb.add_byte(b);
+    crate::show!("C07 keyboard set2 ctx={} byte={:#04x} result={:?}", i, b, r);
+    if !matches!(r, Ok(None)) {
+        assert!(*kb.verif_stages().1 == ScancodeSet2::new(), "C07: Keyboard's Set 2 decoder not back in its initial state after an event/error");
+    } else {
+        assert!(SET2_CTX_DEPTH[i as usize] < 2, "C07: Keyboard::add_byte returned 'no event yet' for a third consecutive byte");
+        assert!(b == 0xE0 || b == 0xE1 || b == 0xF0, "C07: Keyboard::add_byte swallowed a byte that is not a prefix");
+        assert!(*kb.verif_stages().1 != ctx2(i), "C07: a swallowed byte must extend the pending prefix");
+    }
+    kani::cover!(r.is_err());
+}
+
+#[kani::proof]
+pub fn c07_q_keyboard_set1() {
+    let i: u8 = kani::any();
+    kani::assume(i < SET1_CONTEXTS);
+    let b: u8 = kani::any();
+    let calls = core::cell::Cell::new(0);
+    let mut kb = Keyboard::new(ctx1(i), crate::spy::Spy { tag: false, calls: &calls }, HandleControl::Ignore);
+    let r = kb.add_byte(b);
+    crate::show!("C07 keyboard set1 ctx={} byte={:#04x} result={:?}", i, b, r);
+    if !matches!(r, Ok(None)) {
+        assert!(*kb.verif_stages().1 == ScancodeSet1::new(), "C07: Keyboard's Set 1 decoder not back in its initial state after an event/error");
+    } else {
+        assert!(i == 0 && (b == 0xE0 || b == 0xE1), "C07: Keyboard::add_byte swallowed a byte that is not a prefix in the initial context");
+    }
+    kani::cover!(r.is_err());
+}
+
 /// C07 thorough, literal stream form (Set 2): bytes x y z t from new(); whenever y's result is an
 /// event or an error, the results for z t equal those of a fresh decoder fed z t.
 #[kani::proof]
